@@ -343,3 +343,7 @@ Print Assumptions c06_corpus_in_domain.
 Print Assumptions c06_collision_witness_outside.
 Print Assumptions c06_sum_ids_collided.
 Print Assumptions c06_sum_witness_histories.
+
+(* ---- concurrent histories: register / unregister / gather issued from several threads behave as if executed one at a
+   time (Model/RegConc.v, Proofs/RegConc*.v) *)
+Require Export PV.Proofs.C06ConcPinned.
